@@ -637,8 +637,8 @@ Definition real_run : R (N * bool * net * (bytes * net)) :=
   let* after := rd_u8 in
   let* payload := rd_bytes32 in
   let* size := rd_opt rd_u32 in
-  let tcp := (kind =? 2) || (kind =? 4) in
-  let n0 := if after =? 2 then net_init [] [Refused] []
+  let tcp := (kind =? 2) || (kind =? 4) || (kind =? 5) in
+  let n0 := if (after =? 2) || (after =? 4) then net_init [] [Refused] []
             else if tcp then net_init [] [Stream (hd [] replies) (negb (after =? 1))] []
             else if after =? 3 then net_init [Datagram payload] [] []
             else net_init (map Datagram replies) [] [] in
@@ -652,6 +652,11 @@ Definition real_run : R (N * bool * net * (bytes * net)) :=
                                 ((match fst r with Panic 99 => str "ORACLE-MISS" | o => show_outcome show_java o end), snd r))
         else if kind =? 3 then (let r := (do* _ := udp_new 0 t in do* _ := send 0 payload in udp_recv size) n0 in
                                 (show_outcome digest (fst r), snd r))
+        else if kind =? 5 then
+          (* the HTTP client (ureq) is not modelled: what a stalled or absent web server must lead to, per the error mapping
+             of http.rs: no complete response head -> the request failed (PacketSend); head but no body -> the JSON reader failed *)
+          (let head_done := existsb (fun i => starts_with [13; 10; 13; 10] (skipn i (hd [] replies))) (seq 0 (length (hd [] replies))) in
+           ((if (after =? 0) && head_done then str "Err(ProtocolFormat)" else str "Err(PacketSend)"), n0))
         else (let r := (do* _ := tcp_new 0 t in do* _ := send 0 payload in tcp_recv None) n0 in
               (show_outcome digest (fst r), snd r)) in
       ret (kind, tcp, n0, res)
@@ -659,7 +664,8 @@ Definition real_run : R (N * bool * net * (bytes * net)) :=
   end.
 Definition case_real : R bytes :=
   let* '(kind, tcp, n0, (res, n)) := real_run in
-  let saw := if kind =? 2 then (match sends_of n with [] => [] | l => str "len=" ++ show_N (lenN (concat l)) end)
+  let saw := if kind =? 5 then []
+             else if kind =? 2 then (match sends_of n with [] => [] | l => str "len=" ++ show_N (lenN (concat l)) end)
              else if tcp then (match sends_of n with [] => [] | l => digest (concat l) end)
              else if kind =? 3 then intercalate (str ",") (map digest (sends_of n))
              else intercalate (str ",") (map show_hex (sends_of n)) in
@@ -668,7 +674,9 @@ Definition case_spec_real : R bytes :=
   let* '(kind, tcp, n0, (res, n)) := real_run in
   let consumed := lenN (n_udp n0) - lenN (n_udp n) in
   let answered := if tcp then (match n_cur n with Some (_, false) => 1 | _ => 0 end) else consumed in
-  ret (str "timeouts=" ++ show_N (recvs_of n - answered)).
+  (* HTTP: one request, so at most one read waits for the whole timeout unless the connection is refused or closed *)
+  let http_waits := match n_tcp n0 with Stream _ true :: _ => 1 | _ => 0 end in
+  ret (str "timeouts=" ++ show_N (if kind =? 5 then http_waits else recvs_of n - answered)).
 
 (* family 19: the CLI's XML output judged against the value it printed as JSON:
    tree of the JSON output, bytes of the XML output *)
